@@ -1,6 +1,6 @@
 """C08 (default build) -- after success nothing stale remains behind the terminator.
 
-Structural necessary condition decided here: every slack-clearing write into a caller destination -- a zeroing memset, or a loop whose
+Structural necessary conditions decided here (end clause, and a start clause: no gap between what was written and the clearing): every slack-clearing write into a caller destination -- a zeroing memset, or a loop whose
 only stores put 0 through a cursor -- ends *exactly* at dest + dmax (off + n == dmax0 as an equality, entailed both ways from the loop
 invariants).  A clearing that uses a stale counter, the wrong unit (elements for bytes) or stops one element early is what leaves old
 contents readable.  That the clearing is reached on every success path is the terminator rule of C03 plus this equality; the no-slack
@@ -30,7 +30,7 @@ def run(ck):
     res, err = par.pmap(prog, worker, [(f.mod["tu"], f.name) for f in prog.allfuncs])
     for k, e in err.items():
         ck.fail_broken("%s: internal error: %s" % (k[1], e.strip().splitlines()[-1]))
-    n = ok = nreach = 0
+    n = ok = nreach = nstart = 0
     fns = set()
     for k in sorted(res):
         for x in res[k]["res"]:
@@ -39,6 +39,14 @@ def run(ck):
             n += 1
             fns.add(k[1])
             base = api.base_name(k[1])
+            if x.get("starts_at_written_end") is not None:
+                nstart += 1
+            if x.get("starts_at_written_end") is False:
+                ck.report("C08:slack-clear-gap:%s:%s:%s#%d" % (base, x["what"].replace(" ", "-"), x["role"], x["ordinal"]), "S-clear-starts-at-written-end",
+                          "%s:%s" % (res[k]["file"], x["line"]),
+                          "%s: the zeroing %s starts at offset %s, a constant distance behind the end of everything this function wrote into %s: the elements in between keep their old contents"
+                          % (base, x["what"], x["off"], x["role"]), dict(obligation=x))
+                continue
             if x["ends_at_cap"]:
                 ok += 1
                 if len(ck.samples) < 5:
@@ -54,10 +62,14 @@ def run(ck):
                       % (base, x["what"], x["off"], x["size"], x["role"], x["cap"]), dict(obligation=x))
     if n < MIN_FILLS:
         ck.fail_broken("only %d slack-clearing writes found (< %d)" % (n, MIN_FILLS))
+    if nstart < 80:
+        ck.fail_broken("start clause decided for only %d slack-clearing writes (< 80 confirmed on the pinned tree)" % nstart)
     fx = selftest(ck)
     cov = dict(explanation="%d zeroing writes into caller buffers (memsets and zero-only loops) in %d functions: for %d the equality 'start offset + length == declared size' is entailed "
-               "from the loop invariants in both directions; %d lie in functions outside the reach of the domain (not claimed)." % (n, len(fns), ok, nreach),
-               obligations=n, discharged=ok, outside_reach=nreach, functions=len(fns), fixtures=fx, frontend=info,
+               "from the loop invariants in both directions; %d lie in functions outside the reach of the domain (not claimed). Start clause: for %d of them it is decided that the clearing "
+               "starts at the buffer start or not behind the end of something the function itself wrote (a store, or the element count returned by a converter/formatter); "
+               "a start a constant distance behind every such write is reported, the rest (start computed from a value reloaded from memory) is not decided." % (n, len(fns), ok, nreach, nstart),
+               obligations=n, discharged=ok, outside_reach=nreach, start_clause_decided=nstart, functions=len(fns), fixtures=fx, frontend=info,
                summary="%d slack-clearing writes, %d end exactly at dmax, %d outside reach" % (n, ok, nreach))
     return ck.finish(cov, ["only the 'clearing ends exactly at dest+dmax' clause is decided here; 'a terminator is present' is C03, 'the elements in front are exactly the result' is C06 (not decided)",
                            "functions in tables/cap_reach.json are not analysed"])
@@ -68,10 +80,12 @@ def selftest(ck):
     prog = Program(frontend.load_sources([os.path.join(fdir, "c08.c")]))
     roles = capcheck.all_roles(prog)
     out = {}
-    want = {"fx8_good": 0, "fx8_wrong_unit": 1, "fx8_stale_counter": 1, "fx8_loop_short": 1, "fx8_loop_good": 0}
+    want = {"fx8_good": 0, "fx8_wrong_unit": 1, "fx8_stale_counter": 1, "fx8_loop_short": 1, "fx8_loop_good": 0, "fx8_conv_good": 0, "fx8_conv_gap": 1, "fx8_loop_gap": 1}
     for n, w in want.items():
         res, _ = capcheck.analyse(prog.funcs[n], roles.get(n, []), prog, roles, want_kinds=("W", "S"))
-        bad = sum(1 for x in res if x.get("zero_fill") and not x["ends_at_cap"])
+        bad = sum(1 for x in res if x.get("zero_fill") and (not x["ends_at_cap"] or x.get("starts_at_written_end") is False))
+        if n in ("fx8_good", "fx8_conv_good") and not any(x.get("starts_at_written_end") is True for x in res if x.get("zero_fill")):
+            ck.fail_broken("fixture c08.c:%s: the start clause was not decided" % n)
         out[n] = dict(fills=sum(1 for x in res if x.get("zero_fill")), not_ending_at_dmax=bad)
         if (bad > 0) != bool(w) or out[n]["fills"] == 0:
             ck.fail_broken("fixture c08.c:%s: %d of %d fills do not end at dmax, expected %s" % (n, bad, out[n]["fills"], "some" if w else "none"))
